@@ -265,6 +265,56 @@ pub fn compile_files(files: &Files, main: &str, opts: &CompileOpts) -> Compiled 
     }
 }
 
+/// The same compilation with the project written to a scratch directory and read back through the
+/// driver's own reader (`sylt::read_file`); file names in the errors are made relative to the project root again.
+pub fn compile_on_disk(files: &Files, main: &str, opts: &CompileOpts, tag: &str) -> Compiled {
+    install_panic_hook();
+    let root = std::env::var("VERIF_ROOT").unwrap_or_else(|_| ".".into());
+    let dir = Path::new(&root).join(".target").join("runs").join(format!("disk-{}-{}", std::process::id(), tag));
+    let _ = std::fs::remove_dir_all(&dir);
+    for (k, v) in files {
+        let p = dir.join(k);
+        if let Some(parent) = p.parent() {
+            let _ = std::fs::create_dir_all(parent);
+        }
+        let _ = std::fs::write(&p, v);
+    }
+    let args = sylt::Args { args: vec![dir.join(main).display().to_string()], no_std: opts.no_std, require: opts.require.clone(), ..Default::default() };
+    let mut w = CountingWriter { buf: Vec::new() };
+    #[cfg(sylt_verif)]
+    sylt_common::verif::set_fuel(opts.fuel.unwrap_or(DEFAULT_FUEL));
+    let prefix = format!("{}/", dir.display());
+    let r = quiet_catch(|| {
+        let r = sylt::compile_with_reader_to_writer(&args, sylt::read_file, &mut w);
+        r.map_err(|errs| {
+            errs.iter()
+                .map(|e| {
+                    let mut i = err_info(e);
+                    i.file = i.file.map(|f| f.strip_prefix(&prefix).map(|x| x.to_string()).unwrap_or(f));
+                    i
+                })
+                .collect::<Vec<_>>()
+        })
+    });
+    #[cfg(sylt_verif)]
+    {
+        LAST_FUEL_USED.with(|c| *c.borrow_mut() = sylt_common::verif::used());
+        sylt_common::verif::set_fuel(u64::MAX);
+    }
+    let _ = std::fs::remove_dir_all(&dir);
+    match r {
+        Ok(Ok(())) => Compiled::Ok(w.buf),
+        Ok(Err(errors)) => Compiled::Err { errors, bytes_written: w.buf.len() },
+        Err((msg, location)) => {
+            if msg.contains("sylt_verif: fuel exhausted") {
+                Compiled::Fuel
+            } else {
+                Compiled::Panic { msg, location, bytes_written: w.buf.len() }
+            }
+        }
+    }
+}
+
 pub fn compile_str(text: &str) -> Compiled {
     compile_files(&one_file(text), "main.sy", &CompileOpts::default())
 }
